@@ -123,6 +123,7 @@ _serial = [0]
 class Model:
     def __init__(self, sources: dict[str, str] | None = None, root: str | None = None, inline: bool | None = None):
         self.root = root or repo_root()
+        self._sources = sources
         _serial[0] += 1
         self.serial = (os.getpid(), _serial[0])      # cache key (id() values are reused after garbage collection)
         if inline is None:
@@ -166,6 +167,12 @@ class Model:
         elif os.path.isfile(yaml_path):
             with open(yaml_path, encoding='utf-8') as fh:
                 self.yaml_text = fh.read()
+
+    def plain(self):
+        """The same sources without helper expansion (for rules that look at a private helper itself)."""
+        if getattr(self, '_plain', None) is None:
+            self._plain = Model(sources=self._sources, root=self.root, inline=False)
+        return self._plain
 
     # ------------------------------------------------------------------ indexing
     def _index_module(self, mod: ModInfo):
